@@ -269,6 +269,9 @@ func (g *ghostGen) generate() (string, []*Harness) {
 			start := strings.Count(body.String(), "\n")
 			if cf.Logical {
 				for _, m := range rePureFn.FindAllStringSubmatch(d, -1) {
+					if strings.HasPrefix(m[1], "script") {
+						continue // ghost functions named script… are stateful scenarios (they run real code with effects)
+					}
 					pureFnNames[pkgPathOf(cf.PkgDir)+"."+m[1]] = true
 				}
 			}
